@@ -51,7 +51,10 @@ def gen_world(seed, tier):
     if mode == "safe_sequences" and rng.random() < 0.3:
         rng.shuffle(items)
     pol = rng.choice(["random", "random", "pct"])
-    return {"mode": mode, "graph": g, "items": items, "threads": rng.choice([1, 2, 2, 3, 4, 4, 8]),
+    extra = {}
+    if rng.random() < 0.3 and len(g["nodes"]) >= 3:
+        extra = {"additional_starts": [rng.choice(g["nodes"])], "additional_ends": [rng.choice(g["nodes"])] if rng.random() < 0.7 else []}
+    return {"mode": mode, "graph": g, "items": items, "threads": rng.choice([1, 2, 2, 3, 4, 4, 8]), "st": extra,
             "sched": {"seed": rng.randrange(1 << 30), "policy": pol, "switch_p": rng.choice([0.02, 0.1, 0.3, 0.6]),
                       "pct_changes": rng.randint(1, 3), "opcode": tier == "thorough" and rng.random() < 0.25},
             "no_duplicates": rng.random() < 0.15, "include_source_sink": rng.random() < 0.3}
@@ -88,7 +91,8 @@ def execute(spec):
         vs.append(Violation(ID, "C06." + clause, world["mode"], detail))
     with W.active(sim):
         G = gen.to_nx(world["graph"], "flow")
-        SG = fp.stDAG(G)
+        st = world.get("st") or {}
+        SG = fp.stDAG(G, additional_starts=st.get("additional_starts"), additional_ends=st.get("additional_ends"))
         items = _items(world, SG)
         succ = {u: list(SG.successors(u)) for u in SG.nodes()}
         pred = {u: list(SG.predecessors(u)) for u in SG.nodes()}
@@ -208,24 +212,47 @@ def _execute_flow_safe(spec):
             vs.append(Violation(ID, "C06.exception", "flow_safe", {"exc": type(e).__name__, "msg": str(e)[:200]}))
             paths = []
     counters["flow_safe:paths"] = len(paths)
+    rounds = [(paths, flow, out)]
+    if g.get("routes") and world["seed"] % 2 == 0:
+        # history: the caller updates the flow values in place (another superposition of the same routes) and asks again
+        r2 = random.Random(world["seed"] + 1)
+        w2 = [r2.randint(1, 9) for _ in g["routes"]]
+        flow2 = {e: 0 for e in flow}
+        for r, wgt in zip(g["routes"], w2):
+            for e in zip(r[:-1], r[1:]):
+                flow2[e] += wgt
+        out2 = {}
+        for (u, v), f in flow2.items():
+            out2[u] = out2.get(u, 0) + f
+        if all(f > 0 for f in flow2.values()):
+            with W.active(sim):
+                for (u, v), f in flow2.items():
+                    G[u][v]["flow"] = f
+                try:
+                    paths2 = sfd.compute_flow_decomp_safe_paths(G, "flow", no_duplicates=world["no_duplicates"])
+                    rounds.append((paths2, flow2, out2))
+                    counters["flow_safe:second_call_after_update"] = 1
+                except Exception as e:
+                    vs.append(Violation(ID, "C06.exception", "flow_safe", {"exc": type(e).__name__, "msg": str(e)[:200], "call": 2}))
     nonmax = 0
-    for p in paths:
-        es = [tuple(e) for e in p]
-        if any(e not in flow for e in es) or any(a[1] != b[0] for a, b in zip(es[:-1], es[1:])):
-            vs.append(Violation(ID, "C06.flow_safe_not_a_path", "flow_safe", {"path": es}))
-            break
-        ex = flow[es[0]]
-        for a, b in zip(es[:-1], es[1:]):
-            ex -= out[a[1]] - flow[b]
-        if ex <= 1e-12:
-            vs.append(Violation(ID, "C06.unsafe_flow_path", "flow_safe", {"path": es, "excess_flow": ex}))
-            break
-        # maximality (not part of the property; counted only)
-        last = es[-1][1]
-        for (u, v), f in flow.items():
-            if u == last and ex - (out[last] - f) > 1e-12:
-                nonmax += 1
-                break
+    for paths, flow, out in rounds:
+      for p in paths:
+          es = [tuple(e) for e in p]
+          if any(e not in flow for e in es) or any(a[1] != b[0] for a, b in zip(es[:-1], es[1:])):
+              vs.append(Violation(ID, "C06.flow_safe_not_a_path", "flow_safe", {"path": es}))
+              break
+          ex = flow[es[0]]
+          for a, b in zip(es[:-1], es[1:]):
+              ex -= out[a[1]] - flow[b]
+          if ex <= 1e-12:
+              vs.append(Violation(ID, "C06.unsafe_flow_path", "flow_safe", {"path": es, "excess_flow": ex, "call": 1 if flow is rounds[0][1] else 2}))
+              break
+          # maximality (not part of the property; counted only)
+          last = es[-1][1]
+          for (u, v), f in flow.items():
+              if u == last and ex - (out[last] - f) > 1e-12:
+                  nonmax += 1
+                  break
     counters["flow_safe:extendable_to_the_right"] = nonmax
     seen, uniq = set(), []
     for v in vs:
@@ -273,7 +300,10 @@ def _execute_cyclic(spec):
                 break
         # walks_to_fix / edges_set_to_zero of a real walk model
         try:
-            model = fp.kPathCoverCycles(G, k=world["k"])
+            ign = [e for e in base_edges if rng.random() < 0.25]
+            if len(ign) == len(base_edges):
+                ign = ign[1:]
+            model = fp.kPathCoverCycles(G, k=world["k"], elements_to_ignore=ign)
         except Exception as e:
             model = None
             counters["cyclic:model_exc:" + type(e).__name__] = 1
